@@ -77,6 +77,7 @@ DBS = {
                 x=[[0.0072, 0.0057], [0.005, 0.004]], xu=[0.0004, 0.0003], T=[448.15, 498.15], g=[0.0, 500.0], yeq=2e-5, pdens=2000),
 }
 METHODS = ['tangent', 'approximate', 'sampling', 'curvature']
+NEAR_DT = (0.25, -0.01)     # kelvin; relative 4e-4 and 1.5e-5 of the temperatures used
 
 # pycalphad's local solver (pycalphad/core/minimizer.pyx, check_convergence) accepts an equilibrium when the
 # largest site-fraction change of the last iteration is < 5e-9 (absolute); results reached from different
@@ -132,6 +133,10 @@ def point(db, i):
     i = int(i) - 1
     if i == 4:          # P5: far inside the single-phase region (driving force < 0), first temperature
         return d['xu'], d['T'][0]
+    if i == 5:          # P6 / P7: P1 at a temperature a fraction of a kelvin away (a cache keyed on temperature must tell them apart)
+        return d['x'][0], d['T'][0] + NEAR_DT[0]
+    if i == 6:
+        return d['x'][0], d['T'][0] + NEAR_DT[1]
     return d['x'][i % 2], d['T'][i // 2]
 
 
@@ -516,6 +521,10 @@ def df_alphabet(method):
                                                                         'clear']
 
 
+def near_alphabet(method):
+    return ['df|%s|P%d|keep' % (method, i) for i in (1, 6, 7)] + ['clear']
+
+
 def mixed_alphabet(db, quick):
     d = DBS[db]
     a = ['df|tangent|P1|keep', 'df|tangent|P4|keep', 'df|tangent|P2|drop', 'df|tangent|P5|keep',
@@ -829,8 +838,9 @@ def run(ctx):
                 'at least one query before the checked one')
     ctx.bounds = {'history_depth': depth, 'databases': {k: {kk: v[kk] for kk in ('elements', 'phases', 'x', 'T', 'g', 'pdens')}
                                                        for k, v in DBS.items()},
-                  'points': 'P1=(x1,T1) P2=(x2,T1) P3=(x1,T2) P4=(x2,T2) P5=(xu,T1) undersaturated, driving-force queries only',
+                  'points': 'P1=(x1,T1) P2=(x2,T1) P3=(x1,T2) P4=(x2,T2) P5=(xu,T1) undersaturated, driving-force queries only; P6=(x1,T1+0.25K) P7=(x1,T1-0.01K) stage near-T-hist',
                   'df_alphabet': df_alphabet('<method>'), 'methods': METHODS,
+                  'near_T_alphabet': near_alphabet('<method>'), 'near_T_offsets_K': list(NEAR_DT),
                   'mixed_alphabet': {db: mixed_alphabet(db, quick) for db in dbs},
                   'hashtable_points': HT_POINTS}
     ctx.assumptions = ['points are inside the stable two-phase window where equilibria converge (verified on the fresh '
@@ -843,6 +853,7 @@ def run(ctx):
     for db in dbs:
         for m in METHODS:
             syms[db].update(s for s in df_alphabet(m) if s != 'clear')
+            syms[db].update(s for s in near_alphabet(m) if s != 'clear')
         syms[db].update(s for s in mixed_alphabet(db, quick) if s != 'clear')
         for a, rows in batching_cases(db):
             syms[db].update(rows)
@@ -871,6 +882,14 @@ def run(ctx):
             for h in histories(df_alphabet(m), depth):
                 hcases.append({'db': db, 'hist': h})
     _summarise(ctx, 'df-hist', ctx.product_run('df-hist', 'checks.c09:run_history', hcases))
+    # ---- neighbouring temperatures: the same composition queried at T1, T1 + 0.25 K, T1 - 0.01 K in every order
+    ncases = []
+    for db in dbs:
+        for m in METHODS:
+            for h in histories(near_alphabet(m), depth):
+                if len(h) > 1:
+                    ncases.append({'db': db, 'hist': h})
+    _summarise(ctx, 'near-T-hist', ctx.product_run('near-T-hist', 'checks.c09:run_history', ncases))
     mcases = []
     for db in dbs:
         alpha = mixed_alphabet(db, quick)
